@@ -40,7 +40,7 @@ pub fn wop(allow_empty: bool) -> impl Strategy<Value = WOp> {
     let l = move || wlen().prop_map(move |x| if !allow_empty && x == 0 { 1 } else { x });
     prop_oneof![
         6 => l().prop_map(WOp::Write),
-        3 => prop::collection::vec(l(), 0..4).prop_map(move |v| if !allow_empty && v.iter().all(|x| *x == 0) { WOp::WriteV(vec![1]) } else { WOp::WriteV(v) }),
+        3 => prop::collection::vec(l(), 0..=6).prop_map(move |v| if !allow_empty && v.iter().all(|x| *x == 0) { WOp::WriteV(vec![1]) } else { WOp::WriteV(v) }),
         1 => Just(WOp::Yield),
     ]
 }
